@@ -249,6 +249,14 @@ PPL::PIP_Problem::solve() const {
         }
       }
 
+      // The artificial parameters of the current solution tree
+      // come after all the problem space dimensions.
+      if (external_space_dim > internal_space_dim) {
+        x.current_solution
+          ->shift_artificial_parameters(internal_space_dim,
+                                        external_space_dim
+                                        - internal_space_dim);
+      }
       // Update tableau and mark constraints as no longer pending.
       x.current_solution->update_tableau(*this,
                                          external_space_dim,
